@@ -2,7 +2,7 @@
    Only statements, each closed by `exact <lemma>` and followed by Print Assumptions.
    (harness/core.py reads the Print Assumptions output in this order.) *)
 From Coq Require Import ZArith List Bool String.
-From Verif Require Import Model.C16_Purity Proofs.C16_Purity Gen.C16_Plugins Proofs.C16_Plugins Model.C16_Resolve Proofs.C16_Resolve.
+From Verif Require Import Model.C16_Purity Proofs.C16_Purity Gen.C16_Plugins Proofs.C16_Plugins Model.C16_Resolve Proofs.C16_Resolve Model.C16_Write Proofs.C16_Write.
 Import ListNotations.
 Open Scope Z_scope.
 
@@ -141,6 +141,29 @@ Theorem c16_negative_cache_refuted :
 Proof. exact negcache_refuted. Qed.
 Print Assumptions c16_negative_cache_refuted.
 
+(* the file at a path is replaced between parses (operation Write, done by the environment): for EVERY list of
+   Construct / Parse / Mutate / Drop / Write the specification's trace is wspec_trace - every Parse observes parse_fn of the
+   content that is at the path at that moment, whatever was there (and was parsed) before *)
+Theorem write_then_parse_pure : forall parser file content args result token
+    (run : parser -> content -> args -> list token -> option result -> result)
+    (emits : parser -> content -> args -> list token -> list token) (mutate : result -> result)
+    (file_eqb : file -> file -> bool) fs0 ops,
+  wtrace parser file content args result token run emits mutate file_eqb all_off
+         (empty_world parser file content args result token fs0) ops
+  = wspec_trace parser file content args result token run file_eqb fs0 ops [].
+Proof. exact wtrace_spec. Qed.
+Print Assumptions write_then_parse_pure.
+
+(* without a Write the extended machine is the machine of parse_pure (every quirk) *)
+Theorem write_extension_conservative : forall parser file content args result token
+    (run : parser -> content -> args -> list token -> option result -> result)
+    (emits : parser -> content -> args -> list token -> list token) (mutate : result -> result)
+    (file_eqb : file -> file -> bool) q ops w,
+  wexec parser file content args result token run emits mutate file_eqb q w (map (fun o => WOp o) ops)
+  = exec parser file content args result token run emits mutate q w ops.
+Proof. exact wexec_plain. Qed.
+Print Assumptions write_extension_conservative.
+
 (* non-vacuity: the hypotheses of parse_pure are satisfiable and the verdict codes are all reachable *)
 Example bound_example :
   bound unit Z unit [Construct 0 tt 5 tt; Parse 0; Mutate 0; Construct 1 tt 6 tt; Drop 1] 0 None = Some (tt, 5, tt).
@@ -152,3 +175,7 @@ Example verdict_codes_reachable :
                  [(0, 77, 10, 10); (0, 78, 10, 10)]) = 3 /\
   check_hdr ([[(Some 71, [1; 2])]; [(None, [3])]], [HOk [(71, [1; 2])]; HOk [(71, [3])]]) = 2.
 Proof. repeat split; vm_compute; reflexivity. Qed.
+Example write_example :
+  map o_result (wtrace unit Z Z unit Z Z (fun _ c _ _ _ => c * 2) (fun _ _ _ v => v) (fun r => r) Z.eqb all_off
+                       (empty_world unit Z Z unit Z Z (fun _ => 20)) wit_ops) = [40; 60].
+Proof. exact write_witness. Qed.
